@@ -77,7 +77,7 @@ func victimEpoch(m *mesh) uint64 {
 func runC07Input(t *testing.T, in c07Input) CaseOut {
 	var out CaseOut
 	out.Nontrivial = true
-	synctest.Test(t, func(t *testing.T) {
+	bubble(t, func(t *testing.T) {
 		m := newMesh(defaultConsts, "v", "g")
 		m.up("v", "g", 1)
 		m.settle()
